@@ -515,6 +515,7 @@ class Ctx:
                     break
             if blk is None:
                 break
+            self.cex[-1]["listed"] = True
             extra.append(z3.Not(_b(blk)))
         return ok
 
@@ -700,7 +701,7 @@ def _explore_serial(harness, roots, deadline, max_paths, blockers, reset, stop_a
             break
         if stop_at_pending is not None and len(work) >= stop_at_pending:
             break
-        if len(st["cex"]) >= max_cex or len(st["errors"]) >= 3:
+        if sum(1 for c in st["cex"] if not c.get("listed")) >= max_cex or len(st["errors"]) >= 3:
             st["exhausted"] = False
             break
         # breadth-first while splitting for the worker pool (the frontier must grow), depth-first otherwise
